@@ -178,7 +178,9 @@ def observe_case(args):
         if wd:
             rm(wd)
     if err or problems:
-        return cid, None, err or "; ".join(problems)
+        # `problems`: classification completed but what it recorded does not project onto the record (thresholds
+        # table other than the configured thresholds, rows outside every stretch): a difference by itself
+        return cid, None, err or "PROBLEM: " + "; ".join(problems)
     obs = []
     for k, st in enumerate(rec):
         p = proj[k]
@@ -222,9 +224,10 @@ def code_to_spec(chk, n_cases, pres_list, mode="api", procs=12, prefixes=("C01",
     jobs = []
     for c in range(n_cases):
         pres_kw = pres_list[c % len(pres_list)]
-        rec = random_record(rng, max_len=max_len)
+        SJ = dict(S=pres_kw.get("S", 4), J=pres_kw.get("J", 4))
+        rec = random_record(rng, max_len=max_len, **SJ)
         while not P.Presentation(**pres_kw).presentable(rec):
-            rec = random_record(rng, max_len=max_len)
+            rec = random_record(rng, max_len=max_len, **SJ)
         jobs.append((c, rec, pres_kw, mode if c % 10 else "cli"))
     cases, by_id = [], {}
     with mp.Pool(procs) as pool:
@@ -232,7 +235,11 @@ def code_to_spec(chk, n_cases, pres_list, mode="api", procs=12, prefixes=("C01",
             chk.count("evaluations")
             job = jobs[cid]
             if err:
-                if err.startswith("NOFLAGS") and chk.prop == "C04":
+                if err.startswith("PROBLEM: "):
+                    chk.violation("classification of record %s recorded tables that do not describe it: %s" % (
+                        json.dumps(job[1]), err[9:]),
+                        {"kind": "classify_total", "rec": job[1], "pres": job[2], "mode": job[3], "detail": err})
+                elif err.startswith("NOFLAGS") and chk.prop == "C04":
                     chk.violation("flags are not defined for every sample of record %s: %s" % (json.dumps(job[1]), err),
                                   {"kind": "classify_total", "rec": job[1], "pres": job[2], "mode": job[3],
                                    "detail": err})
@@ -265,7 +272,7 @@ def code_to_spec(chk, n_cases, pres_list, mode="api", procs=12, prefixes=("C01",
 def replay_trace_case(chk, rp):
     cid, case, err = observe_case((rp["case"]["id"], rp["case"]["rec"], rp["pres"], rp.get("mode", "api")))
     if err:
-        if chk.prop == "C01" or (chk.prop == "C04" and err.startswith("NOFLAGS")):
+        if chk.prop == "C01" or err.startswith("PROBLEM: ") or (chk.prop == "C04" and err.startswith("NOFLAGS")):
             chk.violation("replayed: " + err, rp)
         return
     fails = validate_cases(chk, [case], "replay")
